@@ -21,6 +21,9 @@ RUNS = {
     "default": {"quick": 480, "thorough": 20000},
     "C04": {"quick": 640, "thorough": 60000},
     "C01": {"quick": 480, "thorough": 30000},
+    "C02": {"quick": 480, "thorough": 30000},
+    "C03": {"quick": 480, "thorough": 30000},
+    "C13": {"quick": 320, "thorough": 8000},
     "C05": {"quick": 480, "thorough": 30000},
     "C06": {"quick": 480, "thorough": 30000},
     "C07": {"quick": 480, "thorough": 30000},
